@@ -15,6 +15,7 @@ import (
 	"time"
 
 	"git.sr.ht/~rockorager/vaxis/ansi"
+	"github.com/containerd/console"
 
 	"git.sr.ht/~rockorager/vaxis"
 	"verifharness/fakeconsole"
@@ -315,6 +316,55 @@ func (g *gateConsole) Reset() error {
 		<-g.release
 	}
 	return g.Console.Reset()
+}
+
+// noSizeConsole: a console whose size cannot be read (the ioctl fails on the fake descriptor, Size() returns
+// an error): `New` gets an error from reportWinsize AFTER it has entered the alternate screen and enabled the
+// modes, and returns (nil, err) — the caller has no handle to call Close on.
+type noSizeConsole struct{ *fakeconsole.Console }
+
+func (n *noSizeConsole) Size() (console.WinSize, error) { return console.WinSize{}, fmt.Errorf("no size") }
+
+// failedStartupSession (round 4): New fails half-way.  Everything written up to the return of New is judged by
+// the mode terminal: a failed New must leave the terminal as it found it.
+func failedStartupSession(r *hx.Run, id string, sub uint32, disableMouse bool) error {
+	var mask uint32
+	for i, bit := range bits {
+		if sub>>uint(i)&1 == 1 {
+			mask |= 1 << uint(bit)
+		}
+	}
+	mask &^= 1 << 14 // without in-band resize: reportWinsize then asks the console
+	caps := fakeconsole.FromMask(mask)
+	fc := fakeconsole.New(12, 5, caps)
+	var vx *vaxis.Vaxis
+	var err error
+	ok := within(6*time.Second, func() { vx, err = vaxis.New(vaxis.Options{WithConsole: &noSizeConsole{fc}, NoSignals: true, DisableMouse: disableMouse}) })
+	r.Case(id)
+	env := []byte{b01(caps.KittyKeyboard), b01(caps.Sixel), b01(caps.UnicodeCore), b01(caps.ExplicitWidth), b01(caps.ColorTheme),
+		'0', b01(caps.Osc176), b01(caps.Sync), b01(disableMouse)}
+	app := ""
+	if caps.Osc176 {
+		app = "fakeapp"
+	}
+	ucs := caps.CursorStyle
+	if ucs < 0 {
+		ucs = 0
+	}
+	r.Emit(fmt.Sprintf("env %s 1 %d %s %s", env, ucs, hx.Hex(app), origVals(caps)), "-")
+	switch {
+	case !ok:
+		r.Emit("startupfail", "hang")
+	case err == nil:
+		if vx != nil {
+			within(6*time.Second, func() { vx.Close() })
+		}
+		r.Emit("startupfail", "noerror")
+	default:
+		r.Emit("startupfail", hx.Hex(string(fc.Take())))
+	}
+	r.Count("failed-startup-sessions")
+	return nil
 }
 
 func session(r *hx.Run, rng *gen.Rng, id string, sub uint32, disableMouse bool, shape int, cursorStyle int) error {
@@ -771,6 +821,12 @@ func run(r *hx.Run) error {
 	// with and without in-band resize (setupSignals branches on it), with and without the mouse
 	for i, m := range []uint32{0, 1 << 14, 1<<14 | 1<<4 | 1<<1 | 1<<11, 1<<0 | 1<<2 | 1<<3 | 1<<15} {
 		if err := sigProcSession(r, fmt.Sprintf("sigproc-%d", i), m, i%2 == 1); err != nil {
+			return err
+		}
+	}
+	// round 4: New fails half-way (the window size cannot be read): a few capability sets
+	for i, sub := range []uint32{0, 0xff, 0x55, 0xaa, 0x41, 0x9e} {
+		if err := failedStartupSession(r, fmt.Sprintf("startfail-%d", i), sub, i%2 == 1); err != nil {
 			return err
 		}
 	}
